@@ -119,6 +119,21 @@ Proof.
     apply scaled_eps_ok with (n := n); assumption.
 Qed.
 
+(* nbytes = ceil(ln U / ln 256): any n at least ln U / ln 256 makes 256^n >= U *)
+Lemma scaled_nbytes_ok (n : nat) (U : R) : 0 < U -> ln U / ln 256 <= INR n -> U <= W n.
+Proof.
+  intros HU Hn. unfold W.
+  assert (H256 : 0 < ln 256) by (rewrite <- ln_1; apply ln_increasing; lra).
+  rewrite <- (Rpower_pow n 256) by lra. unfold Rpower.
+  rewrite <- (exp_ln U HU) at 1.
+  assert (Hle : ln U <= INR n * ln 256).
+  { apply Rmult_le_compat_r with (r := ln 256) in Hn; [|lra].
+    unfold Rdiv in Hn. rewrite Rmult_assoc, Rinv_l, Rmult_1_r in Hn by lra. exact Hn. }
+  destruct (Rle_lt_or_eq_dec _ _ Hle) as [Hlt|Heq].
+  - left. apply exp_increasing. exact Hlt.
+  - right. rewrite Heq. reflexivity.
+Qed.
+
 Lemma ex_scaled_premises : (2 <= 6)%nat /\ 0 < 1 /\ 0 < /1000 /\ 0 < / W 6 <= / W 6 /\
   1 / (/1000) + 1 <= W 2 /\ 0 <= /2 <= 0 + 1.
 Proof.
